@@ -160,6 +160,7 @@ type c10Expect struct {
 	CatDiffers int        // problems for which the category reading of S* would answer differently
 	Decided    int
 	Scope      []c10Prob // base problems (new numbering) in the directive's scope
+	Moved      []c10Prob // all base problems in the new numbering
 }
 
 const c10TokUnmatched = "UNMATCHED-DIRECTIVE"
@@ -177,6 +178,7 @@ func c10Model(b *c10Base, ref []c10Prob, v c10Variant, show bool, enabled map[st
 		moved[i] = p
 	}
 	e.Decided = len(moved)
+	e.Moved = moved
 	directive := v.Kind == "ignore" || v.Kind == "file-ignore"
 	effective := directive && v.Reason
 	inScope := func(p c10Prob) bool {
@@ -190,23 +192,34 @@ func c10Model(b *c10Base, ref []c10Prob, v c10Variant, show bool, enabled map[st
 			e.Scope = append(e.Scope, p)
 		}
 	}
+	// does the list name U1000? sure: as a glob in the documented spelling; fold: only when case is ignored
+	sureU, foldU := false, false
+	for _, n := range v.Names {
+		if c10Glob(n, "U1000", false) {
+			sureU = true
+		} else if c10Glob(n, "U1000", true) {
+			foldU = true
+		}
+	}
+	lineInScope := func(orig int) bool { // orig: line of the base's directive file
+		return v.Kind == "file-ignore" || (v.Kind == "ignore" && orig == v.Place)
+	}
 	build := func(maybe bool) ([]string, int) {
 		// 1. direct suppression
 		sup := map[int]bool{}
 		usedObj := map[string]bool{}
 		if effective {
+			namesU := sureU || (maybe && foldU)
 			for i, p := range moved {
 				if !inScope(p) {
 					continue
 				}
 				hit := false
-				for _, n := range v.Names {
-					if p.Code == "U1000" {
-						if c10Glob(n, p.Code, false) || (maybe && c10Glob(n, p.Code, true)) {
-							hit = true
-						}
-					} else if c10Glob(n, p.Code, true) {
-						hit = true
+				if p.Code == "U1000" {
+					hit = namesU
+				} else {
+					for _, n := range v.Names {
+						hit = hit || c10Glob(n, p.Code, true)
 					}
 				}
 				if hit {
@@ -216,7 +229,16 @@ func c10Model(b *c10Base, ref []c10Prob, v c10Variant, show bool, enabled map[st
 					}
 				}
 			}
-			// 2. U1000: an ignored object counts as used, and so does everything it uses
+			// 2. U1000: an ignored object counts as used, and so does everything reachable from it
+			if namesU {
+				for line, objs := range b.LineUses {
+					if lineInScope(line) {
+						for _, o := range objs {
+							usedObj[o] = true
+						}
+					}
+				}
+			}
 			for changed := true; changed; {
 				changed = false
 				for o := range usedObj {
@@ -254,20 +276,16 @@ func c10Model(b *c10Base, ref []c10Prob, v c10Variant, show bool, enabled map[st
 	e.Suppressed = nsup
 	// wrong-case U1000: does any name match U1000 only when case is folded?
 	if effective {
-		for _, p := range e.Scope {
-			if p.Code != "U1000" {
-				continue
-			}
-			sure, fold := false, false
-			for _, n := range v.Names {
-				if c10Glob(n, "U1000", false) {
-					sure = true
-				} else if c10Glob(n, "U1000", true) {
-					fold = true
+		if !sureU && foldU {
+			for _, p := range e.Scope {
+				if p.Code == "U1000" {
+					e.MaybeU1000 = true
 				}
 			}
-			if !sure && fold {
-				e.MaybeU1000 = true
+			for line := range b.LineUses {
+				if lineInScope(line) {
+					e.MaybeU1000 = true
+				}
 			}
 		}
 		for _, p := range e.Scope {
@@ -292,11 +310,8 @@ func c10Model(b *c10Base, ref []c10Prob, v c10Variant, show bool, enabled map[st
 		case nsup > 0:
 			e.Unmatched = c10MustNot
 		default:
-			onlyOff, exactOn, anyU := true, false, false
+			onlyOff, exactOn, anyU := true, false, sureU || foldU
 			for _, n := range v.Names {
-				if strings.EqualFold(n, "U1000") {
-					anyU = true
-				}
 				if n != "U1000" && n != c10Disabled {
 					onlyOff = false
 				}
